@@ -3,8 +3,10 @@
     non-vacuity examples.  [h <= 32] is Go's own range: the uint64 word has 32
     bits for the search prefix and 32 for the mask. *)
 From Coq Require Import ZArith List Bool Lia.
-From Low Require Import Lib.Bits Lib.Lex Lib.Bytes Spec.Bmtree Spec.PathSpec
-  Model.BmtreePath Model.BmtreePathStr Proofs.BmtreePathProofs.
+From Low Require Import Lib.MachInt Lib.Bits Lib.Lex Lib.Bytes Spec.Bmtree Spec.PathSpec Spec.ContractSpec Spec.PathWideSpec
+  Model.BmtreePath Model.BmtreePathStr Model.BmtreePathWide Proofs.BmtreePathProofs
+  Proofs.BmtreePathFamily Proofs.BmtreePathRawFields Proofs.BmtreeNewPathRaw Proofs.BmtreePathRebuild
+  Model.BmtreeIndex Proofs.BmtreePathWideExtra Proofs.BmtreePathText.
 Import ListNotations.
 Open Scope Z_scope.
 
@@ -95,3 +97,279 @@ Example C10_nonvacuous :
   enc 32 [false; true; true; true] < enc 32 [true] /\
   pre_lt [false; true; true; true] [true].
 Proof. repeat apply conj; try (vm_compute; reflexivity); cbn [length]; lia. Qed.
+
+(** * WIDENING ROUND *)
+
+(** ** NewPath on arbitrary arguments (Model/BmtreePathWide.v: table lookup that
+    panics, int32 difference, uint conversion of the shift count) *)
+
+(** every uint64 search word and every int32 length / height: bit i of the result is
+    bit i-32 of the search word as given, or a mask bit when h-l is a valid shift
+    count; a length outside 0..64 panics *)
+Theorem C10_newpath_raw : forall sb l h,
+  0 <= sb < 2 ^ 64 -> - 2 ^ 31 <= l < 2 ^ 31 -> - 2 ^ 31 <= h < 2 ^ 31 ->
+  NewPath_full sb l h = newpath_spec sb l h.
+Proof. exact NewPath_full_spec. Qed.
+Print Assumptions C10_newpath_raw.
+
+Theorem C10_newpath_panics : forall sb l h, l < 0 \/ 64 < l -> NewPath_full sb l h = None.
+Proof. exact NewPath_full_panics. Qed.
+Print Assumptions C10_newpath_panics.
+
+(** in the documented range, whatever the search word: its low 32 bits are kept
+    as they are (bits beyond the length are NOT cleared), the mask is canonical *)
+Theorem C10_newpath_range : forall sb l h, 0 <= l <= h -> h <= 32 ->
+  NewPath_full sb l h = Some ((sb mod 2 ^ 32) * 2 ^ 32 + Mask l * 2 ^ (h - l)).
+Proof. exact NewPath_full_range. Qed.
+Print Assumptions C10_newpath_range.
+
+Theorem C10_newpath_full_enc : forall h q, (h <= 32)%nat -> (length q <= h)%nat ->
+  NewPath_full (valL h q) (Z.of_nat (length q)) (Z.of_nat h) = Some (enc h q).
+Proof. exact NewPath_full_enc. Qed.
+Print Assumptions C10_newpath_full_enc.
+
+(** search bits below the prefix stay in the word (so the word is NOT the node's
+    path word) but PathLen / PathHeight / PathStr do not see them *)
+Theorem C10_noncanon_word : forall h q e, (h <= 32)%nat -> (length q <= h)%nat ->
+  0 <= e < 2 ^ (Z.of_nat h - Z.of_nat (length q)) ->
+  NewPath_full (valL h q + e) (Z.of_nat (length q)) (Z.of_nat h) = Some (enc h q + e * 2 ^ 32).
+Proof. exact NewPath_full_noncanon. Qed.
+Print Assumptions C10_noncanon_word.
+
+Theorem C10_noncanon_len : forall h q e, (h <= 32)%nat -> (length q <= h)%nat ->
+  PathLen (enc h q + e * 2 ^ 32) = Z.of_nat (length q).
+Proof. exact PathLen_noncanon. Qed.
+Print Assumptions C10_noncanon_len.
+
+Theorem C10_noncanon_height : forall h q e, (h <= 32)%nat -> (1 <= length q <= h)%nat ->
+  PathHeight (enc h q + e * 2 ^ 32) = Z.of_nat h.
+Proof. exact PathHeight_noncanon. Qed.
+Print Assumptions C10_noncanon_height.
+
+Theorem C10_noncanon_str : forall h q e, (h <= 32)%nat -> (length q <= h)%nat ->
+  0 <= e < 2 ^ (Z.of_nat h - Z.of_nat (length q)) ->
+  PathStr (enc h q + e * 2 ^ 32) = node_str q.
+Proof. exact PathStr_noncanon. Qed.
+Print Assumptions C10_noncanon_str.
+
+Theorem C10_noncanon_checker_sound : forall h q e, (h <= 32)%nat -> (length q <= h)%nat ->
+  0 <= e < 2 ^ (Z.of_nat h - Z.of_nat (length q)) ->
+  let w := enc h q + e * 2 ^ 32 in
+  noncanon_ok (Z.of_nat h) q e w (PathLen w) (PathHeight w) (PathStr w) = true.
+Proof. exact noncanon_ok_model. Qed.
+Print Assumptions C10_noncanon_checker_sound.
+
+(** ** the accessors on an arbitrary uint64 *)
+Theorem C10_raw_len : forall w, PathLen w = len_spec w.
+Proof. exact PathLen_raw. Qed.
+Print Assumptions C10_raw_len.
+
+Theorem C10_raw_height : forall w, height_ok w (PathHeight w) = true.
+Proof. exact PathHeight_raw_ok. Qed.
+Print Assumptions C10_raw_height.
+
+Theorem C10_raw_height_unique : forall w h, height_ok w h = true -> h = PathHeight w.
+Proof. exact height_ok_unique. Qed.
+Print Assumptions C10_raw_height_unique.
+
+(** PathStr of any word: "" for an empty mask, else the numeral of the word shifted
+    right by 32 + height - length, zero-padded to at least length digits *)
+Theorem C10_raw_str : forall w, 0 <= w < 2 ^ 64 -> PathStr w = str_spec w (PathLen w) (PathHeight w).
+Proof. exact PathStr_raw. Qed.
+Print Assumptions C10_raw_str.
+
+(** the checker of bmtree.PathFields/raw accepts exactly the model's observation *)
+Theorem C10_raw_checker_exact : forall w pl ph pb pm ps, 0 <= w < 2 ^ 64 ->
+  rawfields_ok w pl ph pb pm ps = true <->
+  pl = PathLen w /\ ph = PathHeight w /\ pb = PathBits w /\ pm = PathMask w /\ ps = PathStr w.
+Proof. exact rawfields_ok_iff. Qed.
+Print Assumptions C10_raw_checker_exact.
+
+(** ** rebuilding a word from its fields; decoding *)
+Theorem C10_rebuild : forall w, 0 <= w < 2 ^ 64 -> rebuild w = Some (rebuild_spec w (PathHeight w)).
+Proof. exact rebuild_raw. Qed.
+Print Assumptions C10_rebuild.
+
+(** NewPath(PathBits w, PathLen w, PathHeight w) = w and no search bit outside the
+    mask  <->  w decodes (height read from the word)  <->  w is the path word of a node *)
+Theorem C10_rebuild_fix : forall w, 0 <= w < 2 ^ 64 ->
+  (rebuild w = Some w /\ stray w = 0) <-> is_some (dec_word w (PathHeight w)) = true.
+Proof. exact rebuild_fix_iff. Qed.
+Print Assumptions C10_rebuild_fix.
+
+Theorem C10_image : forall w, 0 <= w < 2 ^ 64 ->
+  is_some (dec_word w (PathHeight w)) = true <->
+  exists h q, (h <= 32)%nat /\ (length q <= h)%nat /\ w = enc h q.
+Proof. exact decodes_iff_image. Qed.
+Print Assumptions C10_image.
+
+Theorem C10_dec_enc : forall h q, (h <= 32)%nat -> (length q <= h)%nat ->
+  dec_word (enc h q) (PathHeight (enc h q)) = Some q.
+Proof. exact dec_enc. Qed.
+Print Assumptions C10_dec_enc.
+
+Theorem C10_enc_dec : forall w q, 0 <= w < 2 ^ 64 -> dec_word w (PathHeight w) = Some q ->
+  (length q <= Z.to_nat (PathHeight w))%nat /\ enc (Z.to_nat (PathHeight w)) q = w.
+Proof. exact enc_dec. Qed.
+Print Assumptions C10_enc_dec.
+
+Theorem C10_rebuild_checker_sound : forall w r, 0 <= w < 2 ^ 64 -> rebuild w = Some r ->
+  rebuild_ok w r (stray w) (PathHeight w) = true.
+Proof. exact rebuild_ok_model. Qed.
+Print Assumptions C10_rebuild_checker_sound.
+
+(** ** family relations on words *)
+Theorem C10_parent_child : forall h q b, (h <= 32)%nat -> (length q < h)%nat ->
+  enc h q < enc h (q ++ [b]).
+Proof. exact enc_parent_child. Qed.
+Print Assumptions C10_parent_child.
+
+Theorem C10_left_right_child : forall h q, (h <= 32)%nat -> (length q < h)%nat ->
+  enc h (q ++ [false]) < enc h (q ++ [true]).
+Proof. exact enc_left_right. Qed.
+Print Assumptions C10_left_right_child.
+
+(** the child's word computed from the parent's word *)
+Theorem C10_child_word : forall h q b, (length q < h)%nat ->
+  enc h (q ++ [b]) =
+  enc h q + Z.b2z b * 2 ^ (32 + (Z.of_nat h - Z.of_nat (length q) - 1)) + 2 ^ (Z.of_nat h - Z.of_nat (length q) - 1).
+Proof. exact enc_child_word. Qed.
+Print Assumptions C10_child_word.
+
+(** the sub-tree of q = the words in [enc q, enc (next_out q)) *)
+Theorem C10_subtree_interval : forall h q r n, (h <= 32)%nat -> (length q <= h)%nat -> (length r <= h)%nat ->
+  next_out q = Some n ->
+  (enc h q <= enc h r < enc h n <-> is_prefix q r = true).
+Proof. exact subtree_interval. Qed.
+Print Assumptions C10_subtree_interval.
+
+Theorem C10_subtree_interval_spine : forall h q r, (h <= 32)%nat -> (length q <= h)%nat -> (length r <= h)%nat ->
+  next_out q = None ->
+  (enc h q <= enc h r <-> is_prefix q r = true).
+Proof. exact subtree_interval_spine. Qed.
+Print Assumptions C10_subtree_interval_spine.
+
+Theorem C10_children_between : forall h q b n, (h <= 32)%nat -> (length q < h)%nat -> next_out q = Some n ->
+  enc h q < enc h (q ++ [b]) < enc h n.
+Proof. exact children_between. Qed.
+Print Assumptions C10_children_between.
+
+Theorem C10_prefix_iff : forall q r, is_prefix q r = true <-> exists s, r = q ++ s.
+Proof. exact is_prefix_iff. Qed.
+Print Assumptions C10_prefix_iff.
+
+Theorem C10_family_checker_sound : forall h q r, (h <= 32)%nat -> (length q <= h)%nat -> (length r <= h)%nat ->
+  family_ok (Z.of_nat h) q r (enc h q)
+    (if (length q <? h)%nat then Some (enc h (q ++ [false])) else None)
+    (if (length q <? h)%nat then Some (enc h (q ++ [true])) else None)
+    (option_map (enc h) (next_out q)) (enc h r) = true.
+Proof. exact family_ok_model. Qed.
+Print Assumptions C10_family_checker_sound.
+
+(** ** NewPath with ANY search word in the documented range: what the accessors return *)
+Theorem C10_fields_anybits : forall sb h l w, (h <= 32)%nat -> (l <= h)%nat ->
+  NewPath_full sb (Z.of_nat l) (Z.of_nat h) = Some w ->
+  PathLen w = Z.of_nat l /\ ((1 <= l)%nat -> PathHeight w = Z.of_nat h) /\
+  PathBits w = sb mod 2 ^ 32 /\ PathMask w = Mask (Z.of_nat l) * 2 ^ (Z.of_nat h - Z.of_nat l).
+Proof. exact fields_anybits. Qed.
+Print Assumptions C10_fields_anybits.
+
+(** ** siblings *)
+Theorem C10_next_of_left_child : forall p, next_out (p ++ [false]) = Some (p ++ [true]).
+Proof. exact next_out_app_false. Qed.
+Print Assumptions C10_next_of_left_child.
+
+Theorem C10_next_of_right_child : forall p, next_out (p ++ [true]) = next_out p.
+Proof. exact next_out_app_true. Qed.
+Print Assumptions C10_next_of_right_child.
+
+Theorem C10_left_subtree_below_sibling : forall h p s, (h <= 32)%nat -> (length p + 1 + length s <= h)%nat ->
+  enc h (p ++ [false] ++ s) < enc h (p ++ [true]).
+Proof. exact left_subtree_below_sibling. Qed.
+Print Assumptions C10_left_subtree_below_sibling.
+
+(** ** the repo's own well-formedness test (pathcheck.go, debug build; model in
+    Model/BmtreeIndex.v, correspondence through the debug operations of C03) against decoding *)
+Theorem C10_pathCheck_decodes : forall w, 0 <= w < 2 ^ 64 -> u32 w <> 0 ->
+  (pathCheck w = true <-> PathHeight w <= 30 /\ is_some (dec_word w (PathHeight w)) = true).
+Proof. exact pathCheck_iff_decodes. Qed.
+Print Assumptions C10_pathCheck_decodes.
+
+(** with an empty mask half pathCheck accepts any search bits below 2^30, but only 0 is a path word *)
+Theorem C10_pathCheck_empty_mask : forall w, 0 <= w < 2 ^ 64 -> u32 w = 0 ->
+  (pathCheck w = true <-> w / 2 ^ 32 < 2 ^ 30).
+Proof. exact pathCheck_empty_mask. Qed.
+Print Assumptions C10_pathCheck_empty_mask.
+
+Theorem C10_decodes_empty_mask : forall w, 0 <= w < 2 ^ 64 -> u32 w = 0 ->
+  (is_some (dec_word w (PathHeight w)) = true <-> w = 0).
+Proof. exact decodes_empty_mask. Qed.
+Print Assumptions C10_decodes_empty_mask.
+
+Example C10_wide2_nonvacuous :
+  NewPath_full 0xfffffffff 2 5 = Some 0xffffffff00000018 /\
+  PathLen 0xffffffff00000018 = 2 /\ PathHeight 0xffffffff00000018 = 5 /\
+  next_out ([true] ++ [false]) = Some [true; true] /\
+  pathCheck (enc 30 [true; false; true]) = true /\
+  pathCheck 0x500000000 = true /\ is_some (dec_word 0x500000000 (PathHeight 0x500000000)) = false /\
+  pathCheck (enc 31 [true]) = false /\ is_some (dec_word (enc 31 [true]) (PathHeight (enc 31 [true]))) = true.
+Proof. repeat apply conj; vm_compute; reflexivity. Qed.
+
+(** ** the text of a path *)
+(** text order (strings.Compare of PathStr) = numeric order of the words = pre-order *)
+Theorem C10_str_order : forall h q1 q2, (h <= 32)%nat -> (length q1 <= h)%nat -> (length q2 <= h)%nat ->
+  bytes_cmp (PathStr (enc h q1)) (PathStr (enc h q2)) = (enc h q1 ?= enc h q2).
+Proof. exact PathStr_order. Qed.
+Print Assumptions C10_str_order.
+
+Theorem C10_node_str_order : forall q1 q2, bytes_cmp (node_str q1) (node_str q2) = bits_cmp q1 q2.
+Proof. exact node_str_cmp. Qed.
+Print Assumptions C10_node_str_order.
+
+(** word -> PathStr -> ParseUint base 2 -> NewPath gives the word back *)
+Theorem C10_str_parse : forall h q, (h <= 32)%nat -> (length q <= h)%nat ->
+  let s := PathStr (enc h q) in
+  NewPath_full (shl64 (parse_bin s) (Z.of_nat h - BitSeq.zlen s)) (BitSeq.zlen s) (Z.of_nat h) = Some (enc h q).
+Proof. exact PathStr_parse. Qed.
+Print Assumptions C10_str_parse.
+
+Theorem C10_str_order_checker_sound : forall h q1 q2, (h <= 32)%nat -> (length q1 <= h)%nat -> (length q2 <= h)%nat ->
+  strorder_ok q1 q2 (cmp_sign (bytes_cmp (PathStr (enc h q1)) (PathStr (enc h q2))))
+    (PathStr (enc h q1)) (PathStr (enc h q2)) = true.
+Proof. exact strorder_ok_model. Qed.
+Print Assumptions C10_str_order_checker_sound.
+
+(** ** limits of the property: the root's word is 0 at every height (so PathHeight is
+    claimed for |q| >= 1 only), and words of DIFFERENT heights do not compare in pre-order *)
+Theorem C10_root_word : forall h, enc h [] = 0 /\ PathHeight (enc h []) = 0 /\ PathStr (enc h []) = [].
+Proof. exact root_word. Qed.
+Print Assumptions C10_root_word.
+
+Theorem C10_mixed_heights_refuted :
+  exists h1 h2 q1 q2, (h1 <= 32)%nat /\ (h2 <= 32)%nat /\ (length q1 <= h1)%nat /\ (length q2 <= h2)%nat /\
+    pre_lt q1 q2 /\ enc h2 q2 < enc h1 q1.
+Proof. exact mixed_heights_refuted. Qed.
+Print Assumptions C10_mixed_heights_refuted.
+
+Example C10_text_nonvacuous :
+  PathStr (enc 6 [true; false; false]) = [49; 48; 48] /\ parse_bin [49; 48; 48] = 4 /\
+  NewPath_full (shl64 4 (6 - 3)) 3 6 = Some (enc 6 [true; false; false]) /\
+  bytes_cmp (PathStr (enc 6 [true; false; false])) (PathStr (enc 6 [true; false])) = Gt /\
+  (enc 6 [true; false; false] ?= enc 6 [true; false]) = Gt.
+Proof. repeat apply conj; vm_compute; reflexivity. Qed.
+
+(** non-vacuity of the widening: a call outside the documented range (height 40: the
+    mask reaches the upper half), a panic, a non-canonical search word, a word with a
+    hole in its mask that does not decode, and a sub-tree interval *)
+Example C10_wide_nonvacuous :
+  NewPath_full 0x5 3 40 = Some 0xe500000000 /\ newpath_spec 0x5 3 40 = Some 0xe500000000 /\
+  NewPath_full 0 65 3 = None /\
+  NewPath_full 0x7 1 3 = Some (enc 3 [true] + 3 * 2 ^ 32) /\ PathStr (enc 3 [true] + 3 * 2 ^ 32) = [49] /\
+  rebuild 0x500000005 = Some 0x500000006 /\ is_some (dec_word 0x500000005 (PathHeight 0x500000005)) = false /\
+  rebuild (enc 5 [true; false]) = Some (enc 5 [true; false]) /\ stray (enc 5 [true; false]) = 0 /\
+  dec_word (enc 5 [true; false]) (PathHeight (enc 5 [true; false])) = Some [true; false] /\
+  next_out [false; true; true] = Some [true] /\
+  enc 4 [false; true; true] <= enc 4 [false; true; true; true] < enc 4 [true] /\
+  is_prefix [false; true; true] [false; true; true; true] = true /\
+  PathStr 0x0000001200000005 = [49; 48; 48; 49].
+Proof. repeat apply conj; vm_compute; try reflexivity; congruence. Qed.
